@@ -1,27 +1,56 @@
 """C06 — check verdicts are always enforced and every check sees every stage once (DESIGN.md §4 C06)."""
 
-PKGS = ["./internal/msgpipeline/"]
+PKGS = ["./internal/msgpipeline/", "./internal/target/remote/"]
 
 
-def harness(c, n, replay_ops=None):
+def harness(c, n, replay_ops=None, race_n=0):
     rc, out, outdir = c.go_harness(PKGS, "^TestVerifC06", n=n, replay_ops=replay_ops, timeout=1500)
+    if race_n:
+        # the same harness under the race detector (checkRunner shares mergedRes and the seen-maps between goroutines)
+        c.go_harness(PKGS[:1], "^TestVerifC06Pipeline$", n=race_n, race=True, env={"VERIF_C06_TAG": "_race"}, timeout=1500, name="race")
     corr, _ = c.collect(outdir)
     c.correspond(corr)
 
 
 def run(c):
+    # T1: the step lists of Body / BodyNonAtomic, the merge chain of runAndMergeResults and the replay
+    # groups of checkStates, from the current tree
+    c.extract("c06calls", "C06Calls.lean")
     c.lean("C06")
     if c.replay:
         harness(c, 1, replay_ops=c.replay.get("replay_ops") or [])
     else:
-        harness(c, 12000 if c.thorough else 600)
+        harness(c, 9000 if c.thorough else 700, race_n=1500 if c.thorough else 0)
 
     def search():
         c.seed += 1000
-        harness(c, 4000)
+        harness(c, 5000)
 
+    c.assumptions += [
+        "the verdict of a check at a stage is a function of (check, stage, recipient): the model's Verdicts parameter; "
+        "results carry a flag only together with a reason (what FailAction.Apply produces, C06_apply_wellformed) - a flag "
+        "without a reason would use up the runner's sync.Once with a nil error and is not generated",
+        "the DMARC policy outcome is a parameter of the model (property C07 decides it); the harness produces each outcome "
+        "through the real verifier with mock DNS records",
+        "goroutine completion orders are permuted by seeded delays inside the scripted checks (not enumerated); the theorem "
+        "covers every permutation, the differential runs check that the real outcome does not depend on the delays",
+        "the iteration order of Go maps (destination blocks at the body stage, deliveries) is not controlled: what depends "
+        "on it (which destination-only checks saw the body before another one refused it) is not compared",
+    ]
     return c.finish(
-        rule="TODO",
-        explanation="TODO",
+        rule="random pipelines: 1-4 scripted checks (thorough: up to 7) placed in 1-3 of global / source / 1-3 destination blocks "
+        "(the same check in several blocks), a verdict per check for connection, sender, body and each recipient "
+        "(none / ignore-with-reason / quarantine / reject, some with pre-set flags as dnsbl and milter return them, "
+        "densities 0-30%) produced by the real FailAction.Apply, DMARC off / none / quarantine / reject through the real "
+        "verifier, 1-3 recording targets (atomic or per-recipient, 25% refusing quarantined messages like target.remote) "
+        "shared between blocks, envelopes of 1-3 recipients (thorough: up to 6) routed to different blocks with repeated "
+        "recipients, seeded delays per check and stage; each case is run on the REAL MsgPipeline the way the SMTP endpoint "
+        "(Body) and the LMTP endpoint (BodyNonAtomic, then Commit) drive it, again with two other delay assignments, and "
+        "with every ignore verdict removed; every run is compared with the Lean model (command replies, per-recipient "
+        "results, quarantine flag, hand-overs seen by the targets, per-state call logs) and judged by the oracle written "
+        "from the property; plus the FailAction table and the real target.remote against a scripted next hop with the "
+        "flag set before RCPT / before DATA; distinct = distinct op lines",
+        explanation="theorems over all configurations, envelopes, both body paths and all completion orders; model tied to "
+        "check_runner.go / msgpipeline.go by differential runs on the real pipeline and by regenerated call lists (T1)",
         search=search,
     )
